@@ -499,13 +499,24 @@ fn last_sequence_for_segment(path: &Path) -> Result<Option<u64>> {
 }
 
 async fn open_segment(path: &Path) -> Result<tokio::fs::File> {
-    OpenOptions::new()
+    let is_new = !path.exists();
+    let file = OpenOptions::new()
         .create(true)
         .append(true)
         .read(true)
         .open(path)
         .await
-        .map_err(map_io_error)
+        .map_err(map_io_error)?;
+    if is_new {
+        // Syncing a file makes its data durable, not its name: the entry of a newly
+        // created segment survives a power loss only once the directory is synced.
+        if let Some(dir) = path.parent() {
+            std::fs::File::open(dir)
+                .and_then(|d| d.sync_all())
+                .map_err(map_io_error)?;
+        }
+    }
+    Ok(file)
 }
 
 const FLUSHED_SEQ_FILE: &str = "flushed_seq";
